@@ -3,7 +3,9 @@ package main
 import (
 	"errors"
 	"fmt"
+	"runtime"
 	"sort"
+	"strconv"
 	"strings"
 	"sync"
 	"time"
@@ -15,19 +17,48 @@ import (
 
 // scriptedConsumer implements firebolt's kafka.MessageConsumer with scripted answers and a call log.
 type scriptedConsumer struct {
-	mu           sync.Mutex
-	committed    map[int32]int64 // absent = not returned
-	committedErr bool
-	low, high    map[int32]int64
-	wmErr        map[int32]bool
-	assignErr    bool
-	unassignErr  bool // Unassign reports a failure (after having been recorded)
-	partitions   int  // for GetMetadata
-	events       chan kafka.Event
-	calls        []string // "assign p:o,..." | "unassign"
-	lastAssign   []kafka.TopicPartition
-	assigned     bool
-	cursor       map[int32]int64 // cursor client: next offset per assigned partition
+	mu               sync.Mutex
+	committed        map[int32]int64 // absent = not returned
+	committedErr     bool
+	low, high        map[int32]int64
+	wmErr            map[int32]bool
+	assignErr        bool
+	unassignErr      bool // Unassign reports a failure (after having been recorded)
+	committedErrOnce bool // the next Committed query fails, later ones succeed
+	partitions       int  // for GetMetadata
+	events           chan kafka.Event
+	calls            []string // "assign p:o,..." | "unassign"
+	lastAssign       []kafka.TopicPartition
+	assigned         bool
+	cursor           map[int32]int64 // cursor client: next offset per assigned partition
+	parkUnassign     chan struct{}   // the next Unassign waits for this channel to be closed (a slow broker round trip)
+	parked           chan struct{}   // closed when that Unassign has been reached
+	callGoids        []int64         // when trackGoids: the goroutine that made each entry of calls
+	trackGoids       bool
+}
+
+// goid is the number of the calling goroutine (from the header of its stack trace); used only to attribute the scripted
+// client's calls to one of two concurrent callers
+func goid() int64 {
+	var buf [64]byte
+	n := runtime.Stack(buf[:], false)
+	f := strings.Fields(string(buf[:n]))
+	if len(f) < 2 {
+		return -1
+	}
+	v, _ := strconv.ParseInt(f[1], 10, 64)
+	return v
+}
+
+// logCall appends to the call log (caller holds s.mu)
+func (s *scriptedConsumer) logCall(c string) {
+	s.calls = append(s.calls, c)
+	if s.trackGoids {
+		for len(s.callGoids) < len(s.calls)-1 {
+			s.callGoids = append(s.callGoids, 0)
+		}
+		s.callGoids = append(s.callGoids, goid())
+	}
 }
 
 func newScriptedConsumer() *scriptedConsumer {
@@ -40,7 +71,7 @@ func (s *scriptedConsumer) Assign(p []kafka.TopicPartition) error {
 	s.mu.Lock()
 	defer s.mu.Unlock()
 	if s.assignErr {
-		s.calls = append(s.calls, "assign-failed")
+		s.logCall("assign-failed")
 		return errors.New("scripted: assign failed")
 	}
 	cp := make([]kafka.TopicPartition, len(p))
@@ -51,23 +82,35 @@ func (s *scriptedConsumer) Assign(p []kafka.TopicPartition) error {
 	for _, tp := range p {
 		s.cursor[tp.Partition] = int64(tp.Offset)
 	}
-	s.calls = append(s.calls, "assign "+fmtTPs(p, true))
+	s.logCall("assign " + fmtTPs(p, true))
 	return nil
 }
 func (s *scriptedConsumer) Unassign() error {
+	s.mu.Lock()
+	park, parked := s.parkUnassign, s.parked
+	s.parkUnassign, s.parked = nil, nil
+	s.mu.Unlock()
+	if park != nil {
+		close(parked)
+		<-park
+	}
 	s.mu.Lock()
 	defer s.mu.Unlock()
 	s.lastAssign = nil
 	s.assigned = false
 	s.cursor = map[int32]int64{}
-	s.calls = append(s.calls, "unassign")
+	s.logCall("unassign")
 	if s.unassignErr {
 		return errors.New("scripted unassign failure")
 	}
 	return nil
 }
 func (s *scriptedConsumer) Committed(ps []kafka.TopicPartition, _ int) ([]kafka.TopicPartition, error) {
-	if s.committedErr {
+	s.mu.Lock()
+	once := s.committedErrOnce
+	s.committedErrOnce = false
+	s.mu.Unlock()
+	if s.committedErr || once {
 		return nil, errors.New("scripted: committed failed")
 	}
 	var out []kafka.TopicPartition
@@ -118,6 +161,7 @@ type recordingContext struct {
 	acked     []fbcontext.Message
 	sendErr   bool
 	stallNext bool // the next SendMessage stalls for up to 10 ms (or until another send has been recorded)
+	stalling  chan struct{} // closed when that send has begun to stall
 }
 
 func (c *recordingContext) ConfigureMessaging(send fbcontext.MessageFunc, ack fbcontext.MessageFunc) {
@@ -129,6 +173,10 @@ func (c *recordingContext) SendMessage(msg fbcontext.Message) error {
 		// this send stalls in the transport: if another send gets through meanwhile, it is delivered first
 		c.stallNext = false
 		before := len(c.sent)
+		if c.stalling != nil {
+			close(c.stalling)
+			c.stalling = nil
+		}
 		c.mu.Unlock()
 		for t0 := time.Now(); time.Since(t0) < 10*time.Millisecond; time.Sleep(200 * time.Microsecond) {
 			c.mu.Lock()
